@@ -240,8 +240,9 @@ def checks(outdir, k, n):
     surv.sort()
     resf = os.path.join(outdir, "checks.%d.txt" % k)
     done = set()
-    if os.path.exists(resf):
-        done = {l.split()[0] for l in open(resf)}
+    for f in os.listdir(outdir):
+        if f.startswith("checks.") and f.endswith(".txt"):  # whatever any worker has finished
+            done |= {l.split()[0] for l in open(os.path.join(outdir, f)) if l.strip()}
     ids = ["C%02d" % i for i in range(1, 20)]
     verif = os.path.dirname(os.path.dirname(os.path.abspath(__file__)))
     for i, m in enumerate(surv):
